@@ -624,7 +624,7 @@ def flurry_projection(trace, job, consts):
                 incrit[t] = False
                 j = last_step.get(t)
                 if j is not None:
-                    out.insert(j + 1, {"t": t + 1, "c": "unlock"})
+                    out.insert(j + 1, {"t": t + 1, "c": "unlock", "g": cur_g.get(t, 0)})
                     for u in last_step:
                         if last_step[u] > j:
                             last_step[u] += 1
